@@ -645,6 +645,8 @@ def run(ctx):
     for it in range(ctx.q(400, 4000)):
         cplx = bool(rng.integers(0, 2)); p = int(rng.integers(1, 17)); tag = 'complex' if cplx else 'real'
         k = search_k(rng, p, cplx); r0 = float(10.0 ** rng.uniform(-3, 3))
+        if it % 4 == 3:
+            r0 = float(10.0 ** rng.uniform(-25, 25))        # every conversion is homogeneous in the zero-lag value / final error
         if kappa_of(k) > 1e6:
             nreg += 1; ctx.count('search_regenerated_illconditioned'); continue
         rep = {'kind': 'chain', 'k': vlib.hexv(k), 'r0': r0.hex(), 'tag': tag}
@@ -661,6 +663,8 @@ def run(ctx):
             t = np.arange(N); f = rng.uniform(0.05, 0.45)
             x = x * 0.3 + (np.exp(2j * np.pi * f * t) if cplx else np.cos(2 * np.pi * f * t))
         r = np.array([np.sum(x[j:] * np.conj(x[:N - j])) / N for j in range(p + 1)])
+        if it % 4 == 3:
+            r = r * float(10.0 ** rng.uniform(-25, 25))
         if not cplx:
             r = np.real(r)
         rep = {'kind': 'from_ac', 'r': vlib.hexv(r), 'tag': tag}
@@ -680,7 +684,7 @@ def run(ctx):
             m = p // 2; zz = rng.uniform(0, 0.9, m) * np.exp(1j * np.pi * rng.random(m))
             z = np.concatenate((zz, np.conj(zz), rng.uniform(-0.9, 0.9, p - 2 * m)))
         a = np.poly(z); a = a if cplx else np.real(a)
-        ef = float(10.0 ** rng.uniform(-2, 2))
+        ef = float(10.0 ** (rng.uniform(-2, 2) if it % 4 != 3 else rng.uniform(-25, 25)))
         rep = {'kind': 'from_poly', 'a': vlib.hexv(a), 'e': ef.hex(), 'tag': tag}
         try:
             bad = check_from_poly(a, ef, tag)
